@@ -12,7 +12,7 @@ def _nontrivial(script, r):
 
 def run(ctx, deep=False):
     thorough = deep or ctx.tier == "thorough"
-    n = 5000 if thorough else 500
+    n = 20000 if thorough else 2000
     ctx.coverage["rule"] = (
         "scripts of the outage / steady / fault families cut at a random point by close(), optionally followed by a send, then "
         "1000 s of virtual idle time with the network accepting; at the end the loop's pending timers, unfinished tasks and the "
